@@ -49,6 +49,7 @@ def extra_cases(tier):
         {'family': 'ugrid', 'mesh': 'M4', 'supplied': ['edge_node'], 'fill': 'nan', 'face_coords': True},
     ]
     out += [{**spec, 'io': 'reopen'} for spec in reopened]
+    out += [{**spec, 'io': 'dask'} for spec in reopened[:4]]
     if tier == 'thorough':
         for (a, b) in ((5, 5), (2, 6), (6, 2), (1, 7), (7, 1)):
             out.append({'family': 'cf1d', 'ny': a, 'nx': b, 'bounds': 'var', 'lon_kind': 'desc'})
@@ -71,6 +72,24 @@ def run_case(case):
             import shutil
             shutil.rmtree(tmp, ignore_errors=True)
         rec.nontrivial('reopened')
+    elif case.get('io') == 'dask':
+        ds = ds.chunk({d: 1 for d in (truth.time_dim,)})     # lazily evaluated (dask-backed) data variables
+        rec.nontrivial('dask')
+    # A second dataset of the same family and shape but other coordinates and labels is alive and fully
+    # used at the same time: nothing computed for one may leak into the other (shared caches, class state).
+    decoy_spec = {k: v for k, v in case.items() if k != 'io'}
+    decoy_spec.update({'seed': case.get('seed', 0) + 2, 'lon0': case.get('lon0', 0.0 if case['family'] == 'ugrid' else 10.0) + 3.0,
+                       'lat0': case.get('lat0', 0.0 if case['family'] == 'ugrid' else -2.0) - 1.0})
+    decoy, decoy_truth = builders.build(decoy_spec)
+    try:
+        decoy_convention = decoy.ems
+        touched = [decoy_convention.polygons, decoy_convention.face_centres, decoy_convention.mask, decoy_convention.strtree,
+                   decoy_convention.grid_size]
+        if decoy_truth.defined:
+            touched.append(decoy_convention.bounds)
+            touched.append(decoy_convention.geometry)
+    except Exception:  # noqa: BLE001   (the decoy's own defects are reported when it is the subject of a case)
+        decoy_convention = None
     try:
         convention = lib(lambda: ds.ems)
     except LibraryRaised as err:
@@ -207,5 +226,21 @@ def run_case(case):
             rec.check(hits == want and n in hits, f"{fp}/strtree-positions",
                       f"spatial index hits for a point inside cell {n}", want, hits)
 
+    # the other dataset, used before this one, still answers for itself
+    if decoy_convention is not None and decoy_truth.defined:
+        decoy_polys = decoy_convention.polygons
+        djudged = decoy_truth.get('judged', [True] * len(decoy_truth.polygons))
+        ok = len(decoy_polys) == len(decoy_truth.polygons) and all(
+            ref.polygon_matches(decoy_polys[n], decoy_truth.polygons[n], decoy_truth.polygon_compare)
+            for n in range(len(decoy_polys)) if djudged[n] and not isinstance(decoy_truth.polygons[n], str))
+        rec.check(ok, f"{fp}/state-shared-between-datasets", "polygons of a second dataset changed after this dataset was used",
+                  'its own polygons', 'different')
+        try:
+            botz = decoy_truth.vars['botz']
+            got = lib(decoy_convention.ravel, decoy['botz']).values
+            rec.check(ref.same_values(got, ref.expected_values(botz, len(decoy_truth.polygons), decoy_truth.shift)),
+                      f"{fp}/state-shared-between-datasets", "flattened data of a second dataset", 'its own labels', got[:6])
+        except LibraryRaised as err:
+            rec.check(False, f"{fp}/state-shared-between-datasets", "ravel on the second dataset raised", 'values', str(err))
     rec.outcome([family, [tuple(v['shape']) for v in truth.kinds.values()], len(holes)])
     return rec.result()
